@@ -426,12 +426,31 @@ func runC01(sc *C01Script) *sim.Outcome {
 		s.DeliverQ(dir, idx)
 		r.invariant(what)
 	}
-	for _, op := range sc.Ops {
+	for si, op := range sc.Ops {
 		if o.Violation != "" {
 			return o
 		}
 		who := op.W & 1
 		switch op.K {
+		case "restart":
+			// one side's client is restarted (new conversation object, same long-term key and instance tag) and asks for a
+			// new exchange; whatever the other side remembers of earlier sessions must not stand in the way of this one
+			if v3conv := sc.Cfg.V == 3; true {
+				tag := uint32(0)
+				if v3conv && w.P[who].C.IsEncrypted() {
+					tag = w.P[who].C.GetOurInstanceTag()
+				}
+				np := sim.NewParty(sim.PartyOpts{Name: w.P[who].Name, Seed: sc.Cfg.SeedA*5 + uint64(si)*2 + uint64(who) + 424242, Pol: sc.Cfg.pol(), KeyI: w.P[who].KeyI})
+				if tag != 0 {
+					np.C.InitializeInstanceTag(tag)
+				}
+				w.P[who] = np
+				s.nDraw[who] = 0
+				w.Q[who] = nil
+				w.AgeClock(1-who, 3*60e9)
+				w.Query(who)
+				o.Class("client-restarted")
+			}
 		case "start":
 			w.AgeClock(who, 3*60e9)
 			w.Query(who)
@@ -509,7 +528,8 @@ func runC01(sc *C01Script) *sim.Outcome {
 	a, b := w.P[0].C, w.P[1].C
 	w.Q[0], w.Q[1] = nil, nil
 	if a.IsEncrypted() && b.IsEncrypted() && a.GetSSID() == b.GetSSID() {
-		for d := 0; d < 2; d++ {
+		for k := 0; k < 2; k++ {
+			d := (k + len(sc.Ops)) & 1 // either side may be the first to speak in the new session
 			t := s.Text(d, 8, 0)
 			s.Send(d, t)
 			var got []byte
@@ -533,7 +553,7 @@ func init() { reg("C01attack", runC01); reg("C01degenerate", runC01); reg("C01sw
 
 func TestProp_C01_Attack(t *testing.T) {
 	defer sim.MarkCompleted("C01attack", false)
-	kinds := []string{"start", "start", "dl", "dl", "dl", "dl", "dl", "dup", "drop", "mut", "mut", "mut", "mut", "injrec", "mrun", "mrun", "mpartial", "mdegen", "mdegen", "flush", "flush"}
+	kinds := []string{"start", "start", "restart", "dl", "dl", "dl", "dl", "dl", "dup", "drop", "mut", "mut", "mut", "mut", "injrec", "mrun", "mrun", "mpartial", "mdegen", "mdegen", "flush", "flush"}
 	rapid.Check(t, func(rt *rapid.T) {
 		sc := &C01Script{Cfg: genSessCfg(rt), KeyM: rapid.IntRange(0, 5).Draw(rt, "km")}
 		sc.Cfg.FragA, sc.Cfg.FragB = 0, 0
